@@ -97,6 +97,7 @@ func frameFieldName(v ssa.Value, frame ssa.Value) string {
 // encoderLayout extracts the writes into the header.
 func encoderLayout(f *ssa.Function, header *ssa.Slice, frame ssa.Value) []layoutEntry {
 	var out []layoutEntry
+	var bstores []byteStore
 	allInstrs(f, func(i ssa.Instruction) {
 		switch x := i.(type) {
 		case *ssa.Call:
@@ -132,15 +133,25 @@ func encoderLayout(f *ssa.Function, header *ssa.Slice, frame ssa.Value) []layout
 			}
 			k, isK := intConst(ia.Index)
 			if !isK {
+				// for i := 0; i < n; i++ { header[K+i] = byte(src >> (8*(n-1-i))) }
+				if lo, n, src, okL := beLoopStore(x, ia); okL {
+					out = append(out, layoutEntry{lo, lo + n, fmt.Sprintf("BE%d", n*8), frameFieldName(src, frame), i})
+				}
 				return
 			}
-			what := frameFieldName(x.Val, frame)
-			if what == "" {
-				what = "extraLen"
-			}
-			out = append(out, layoutEntry{k, k + 1, "byte", what, i})
+			bstores = append(bstores, byteStore{k, x.Val, i})
 		}
 	})
+	// manual big-endian writes (byte(x>>24), byte(x>>16), …) are one field
+	fields, rest := groupBigEndian(bstores, func(src ssa.Value) string { return frameFieldName(src, frame) })
+	out = append(out, fields...)
+	for _, s := range rest {
+		what := frameFieldName(s.val, frame)
+		if what == "" {
+			what = "extraLen"
+		}
+		out = append(out, layoutEntry{s.off, s.off + 1, "byte", what, s.at})
+	}
 	sort.Slice(out, func(i, j int) bool { return out[i].lo < out[j].lo })
 	return out
 }
@@ -157,6 +168,54 @@ func decoderLayout(f *ssa.Function, header *ssa.Slice, frame ssa.Value) []layout
 		}
 	})
 	var out []layoutEntry
+	// manual big-endian reads: an OR of shifted header bytes is one field; its loads are not single-byte fields
+	consumed := map[ssa.Value]bool{}
+	allInstrs(f, func(i ssa.Instruction) {
+		bo, ok := i.(*ssa.BinOp)
+		if !ok || (bo.Op != token.OR && bo.Op != token.ADD) {
+			return
+		}
+		// only maximal expressions: skip when the only user is another OR/ADD of the same kind
+		if refs := bo.Referrers(); refs != nil && len(*refs) == 1 {
+			if up, isB := (*refs)[0].(*ssa.BinOp); isB && (up.Op == token.OR || up.Op == token.ADD) {
+				return
+			}
+			if cv, isC := (*refs)[0].(*ssa.Convert); isC {
+				if r2 := cv.Referrers(); r2 != nil && len(*r2) == 1 {
+					if up, isB := (*r2)[0].(*ssa.BinOp); isB && (up.Op == token.OR || up.Op == token.ADD) {
+						return
+					}
+				}
+			}
+		}
+		lo, n, loads, okR := beRead(bo, header)
+		if !okR {
+			return
+		}
+		for _, l := range loads {
+			consumed[l] = true
+		}
+		what := dest[ssa.Value(bo)]
+		if what == "" {
+			// the value may pass through a widening conversion before it is stored
+			for v, nm := range dest {
+				if stripIntWiden(v) == ssa.Value(bo) {
+					what = nm
+				}
+			}
+		}
+		out = append(out, layoutEntry{lo, lo + n, fmt.Sprintf("BE%d", n*8), what, i})
+	})
+	// fold loops: v = 0; for _, b := range header[lo:hi] { v = v<<8 | T(b) }
+	for v, nm := range dest {
+		ph, ok := stripIntWiden(v).(*ssa.Phi)
+		if !ok {
+			continue
+		}
+		if lo, n, okF := beFold(ph, header); okF {
+			out = append(out, layoutEntry{lo, lo + n, fmt.Sprintf("BE%d", n*8), nm, ph})
+		}
+	}
 	allInstrs(f, func(i ssa.Instruction) {
 		switch x := i.(type) {
 		case *ssa.Call:
@@ -190,7 +249,7 @@ func decoderLayout(f *ssa.Function, header *ssa.Slice, frame ssa.Value) []layout
 				return
 			}
 			k, isK := intConst(ia.Index)
-			if !isK {
+			if !isK || consumed[x] {
 				return
 			}
 			what := dest[x]
@@ -323,30 +382,38 @@ func c04R2(c *Ctx, rule string) {
 	c.Check(encRegion && decRegion, rule, "sealed region = everything after the header, in place", c.at(seal), "buf[14:14+len+pad] sealed in place; in[14:] opened in place", fmt.Sprintf("encoder region ok=%v, decoder region ok=%v", encRegion, decRegion))
 	// salsa20: XORKeyStream(out, in, nonce, key)
 	keyOK := func(v ssa.Value) bool { fv, _ := fieldVar(v); return fv == keyF }
+	// nonce = the last 8 bytes of the message, whatever nesting of slice expressions spells it:
+	// encoder buf[L−8 : L] with L the encoded length it returns; decoder in[len(in)−8 :]
 	encNonce := func() bool {
-		sl, ok := xe.Call.Args[2].(*ssa.Slice)
-		if !ok || sl.X != ssa.Value(enc.Params[2]) || sl.Low == nil || sl.High == nil {
+		lo, hi, open, ok := normSlice(xe.Call.Args[2], enc.Params[2])
+		if !ok || open {
 			return false
 		}
-		bo, ok := sl.Low.(*ssa.BinOp)
-		if !ok || bo.Op != token.SUB || bo.X != sl.High {
+		d := hi.add(lo, -1)
+		if !d.isConst() || d.C != 8 {
 			return false
 		}
-		k, isK := intConst(bo.Y)
-		return isK && k == 8
+		for _, r := range returnsOf(enc) {
+			if errIsNilAt(resultValue(r, 1), r) != "nonnil" {
+				if l, okL := exactAff(resultValue(r, 0)); okL && l.String() == hi.String() {
+					return true
+				}
+			}
+		}
+		return false
 	}()
 	decNonce := func() bool {
-		sl, ok := xd.Call.Args[2].(*ssa.Slice)
-		if !ok || sl.X != ssa.Value(dec.Params[2]) || sl.Low == nil || sl.High != nil {
+		lo, _, open, ok := normSlice(xd.Call.Args[2], dec.Params[2])
+		if !ok || !open || lo.C != -8 || len(lo.Terms) != 1 {
 			return false
 		}
-		bo, ok := sl.Low.(*ssa.BinOp)
-		if !ok || bo.Op != token.SUB {
-			return false
+		for s, k := range lo.Terms {
+			lc, isC := s.(*ssa.Call)
+			if !isC || k != 1 || calleeName(&lc.Call) != "builtin.len" || lc.Call.Args[0] != ssa.Value(dec.Params[2]) {
+				return false
+			}
 		}
-		lc, ok := bo.X.(*ssa.Call)
-		k, isK := intConst(bo.Y)
-		return ok && calleeName(&lc.Call) == "builtin.len" && lc.Call.Args[0] == ssa.Value(dec.Params[2]) && isK && k == 8
+		return true
 	}()
 	c.Check(xe.Call.Args[0] == ssa.Value(eh) && xe.Call.Args[1] == ssa.Value(eh) && keyOK(xe.Call.Args[3]) && encNonce, rule, "encoder header cipher: Salsa20(header, nonce = last 8 bytes, key = sessionKey)", c.at(xe), "XORKeyStream(header, header, buf[usefulLen-8:usefulLen], &o.sessionKey)",
 		"header encryption is wired to "+Expr(xe))
